@@ -478,59 +478,144 @@ def check_accumulation(prog, report):
                      'index, and the total of all computed pairs is '
                      'returned', construct=q.split('.')[-1] +
                      ': symmetry producer')
-    # consumer
+    # consumer (semantic): every store into the result array is classified
+    # by its substituted index / value / guard
     fi = prog.func(EE, 'ErrorEstimator.estimate_sobolev')
-    loop = None
+
+    class CW(Walker):
+        unroll_literal_loops = True
+
+        def __init__(s_):
+            super().__init__()
+            s_.stores = []
+            s_.loops = []
+
+        def walk_stmt(s_, st, state):
+            if isinstance(st, ast.For):
+                s_.loops.append((st, state.sub(st.iter), state.copy()))
+                out = super().walk_stmt(st, state)
+                s_.loops.pop()
+                return out
+            return super().walk_stmt(st, state)
+
+        def on_stmt(s_, st, state):
+            if isinstance(st, ast.AugAssign) and isinstance(
+                    st.target, ast.Subscript) and isinstance(
+                        st.op, ast.Add) and isinstance(
+                            st.target.slice, ast.Tuple) and len(
+                                st.target.slice.elts) == 2:
+                arr = text(st.target.value)
+                idx, col = (state.sub(e) for e in st.target.slice.elts)
+                s_.stores.append((arr, idx, col, state.sub(st.value),
+                                  state.copy(), st, list(s_.loops)))
+
+    w = CW()
+    w.walk_function(fi.node)
+    res = None
     for n in ast.walk(fi.node):
-        if isinstance(n, ast.For) and any(
-                isinstance(m, ast.AugAssign) and text(m.target).startswith(
-                    'sobolev[') for m in ast.walk(n)):
-            loop = n
-            break
-    if loop is None:
-        raise AnalysisError('%s: accumulation loop not found' % fi.where())
-    i, e = (text(x) for x in loop.target.elts)
-    cols = {}
-    for s in loop.body:
-        if isinstance(s, ast.AugAssign) and isinstance(s.op, ast.Add):
-            t_ = text(s.target).replace(' ', '')
-            v = text(s.value).replace(' ', '')
-            for col, src in ((0, 'sobolev_time'), (1, 'sobolev_space')):
-                if t_ == 'sobolev[%s,%d]' % (i, col) and v == '%s[%s][0]' % (
-                        src, i):
-                    cols[(col, 'own')] = True
-        if isinstance(s, ast.For):
-            src = text(s.iter).replace(' ', '')
-            nv, vv = (text(x) for x in s.target.elts)
-            for col, nm in ((0, 'sobolev_time'), (1, 'sobolev_space')):
-                if src == '%s[%s][1]' % (nm, i):
-                    iff = [m for m in s.body if isinstance(m, ast.If)]
-                    if len(iff) == 1 and len(s.body) == 1:
-                        want = cond_dnf(ast.parse(
-                            '%s.glob_idx < %s' % (e, nv), mode='eval').body,
-                            {})
-                        got = cond_dnf(iff[0].test, {})
-                        norm = lambda d: sorted(
-                            sorted(map(str, map(fact_key, c))) for c in d)
-                        st = [text(m).replace(' ', '') for m in iff[0].body]
-                        if norm(want) == norm(got) and st == [
-                                'sobolev[glob_2_loc[%s],%d]+=%s' %
-                                (nv, col, vv)]:
-                            cols[(col, 'nbr')] = True
+        if isinstance(n, ast.Return) and n.value is not None and \
+                isinstance(n.value, ast.Name):
+            res = n.value.id
+    # the array that is returned after the accumulation
+    stores = [x for x in w.stores if x[0] == res]
+    if not stores:
+        raise AnalysisError('%s: accumulation stores not found' % fi.where())
     g2l = any(isinstance(n, ast.Assign) and text(n.targets[0]) ==
               'glob_2_loc' and text(n.value).replace(' ', '') ==
               '{elem.glob_idx:ifori,eleminenumerate(elems)}'
               for n in ast.walk(fi.node))
-    zip_ok = text(loop.iter).replace(' ', '') in ('zip(range(N),elems)',
-                                                  'enumerate(elems)')
+    seen = set()
+    bad = []
+    import re as _re
+    for arr, idx, col, val, state, st, loops in stores:
+        if not (isinstance(col, ast.Constant) and col.value in (0, 1)):
+            bad.append('column `%s` is not a literal 0/1' % text(col))
+            continue
+        src = ('sobolev_time', 'sobolev_space')[col.value]
+        def canon(tx):
+            tx = tx.replace(' ', '')
+            tx = tx.replace('{elem.glob_idx:ifori,eleminenumerate(elems)}',
+                            'glob_2_loc')
+            return _re.sub(r'(sobolev_time|sobolev_space)#\d+', r'\1', tx)
+        it = canon(text(idx))
+        vt = canon(text(val))
+        m_own = _re.fullmatch(r'%s\[(.+)\]\[0\]' % src, vt)
+        if m_own and it == m_own.group(1):
+            # own total at the element's own position
+            seen.add((col.value, 'own'))
+            continue
+        m_n = _re.fullmatch(r'glob_2_loc\[(.+)\]', it)
+        if m_n:
+            nb = m_n.group(1)
+            # (nb, val) must come from iterating src[i][1]
+            prov = None
+            for lst, lit, lstate in loops[::-1]:
+                names = [text(e) for e in lst.target.elts] if isinstance(
+                    lst.target, ast.Tuple) else []
+                if len(names) == 2:
+                    a_, b_ = (text(state.sub(ast.Name(id=x, ctx=ast.Load())))
+                              for x in names)
+                    if canon(a_) == nb and canon(b_) == vt:
+                        prov = canon(text(lit))
+                        break
+            m_p = _re.fullmatch(r'%s\[(.+)\]\[1\]' % src, prov or '')
+            if not m_p:
+                bad.append('neighbour credit in column %d does not come '
+                           'from %s[i][1] (from %s)' % (col.value, src, prov))
+                continue
+            own = m_p.group(1)
+            # guard: own global index < neighbour global index
+            cands = ['elems[%s].glob_idx' % own]
+            for lst, lit, lstate in loops:
+                t_ = lst.target
+                if isinstance(t_, ast.Tuple) and len(t_.elts) == 2 and \
+                        canon(text(state.sub(ast.Name(
+                            id=text(t_.elts[0]), ctx=ast.Load())))) == own \
+                        and canon(text(lit)) in (
+                            'zip(range(N),elems)', 'enumerate(elems)',
+                            'zip(range(len(elems)),elems)'):
+                    cands.append(text(state.sub(ast.Name(
+                        id=text(t_.elts[1]), ctx=ast.Load()))) + '.glob_idx')
+            okg = False
+            base_keys = set()
+            if loops:
+                for bc in loops[0][2].cases:
+                    base_keys |= {fact_key(f) for f in bc}
+            nb_lin = to_lin(ast.parse(nb.replace('#', '__'),
+                                      mode='eval').body)
+            nb_lin = Lin({k.replace('__', '#'): v
+                          for k, v in nb_lin.c.items()}, nb_lin.k)
+            for c_ in cands:
+                ol = to_lin(ast.parse(c_.replace('#', '__'),
+                                      mode='eval').body)
+                ol = Lin({k.replace('__', '#'): v for k, v in ol.c.items()},
+                         ol.k)
+                target = ('lin', ol - nb_lin, '<')
+                good = True
+                for case in state.cases:
+                    rest = [f for f in case if fact_key(f) not in base_keys]
+                    if not rest or not entails(rest, target) or not all(
+                            entails([target], f) for f in rest):
+                        good = False
+                if good:
+                    okg = True
+            if not okg:
+                bad.append('neighbour credit in column %d is guarded by %s, '
+                           'not by "own global index < neighbour global '
+                           'index"' % (col.value, state.facts_text()[:120]))
+                continue
+            seen.add((col.value, 'nbr'))
+            continue
+        bad.append('unclassified store `%s`' % text(st)[:60])
+    ok = not bad and g2l and seen == {(0, 'own'), (0, 'nbr'), (1, 'own'),
+                                      (1, 'nbr')}
     report.check(
-        cols == {(0, 'own'): True, (0, 'nbr'): True, (1, 'own'): True,
-                 (1, 'nbr'): True} and g2l and zip_ok, 'R-accumulate',
-        'estimate_sobolev consumer', fi.where(loop),
+        ok, 'R-accumulate', 'estimate_sobolev consumer', fi.where(),
         'element i is credited its own total; the neighbour of a computed '
-        'pair is credited iff own index < neighbour index (strict: each '
-        'unordered pair once per side, the self pair once); column 0 = '
-        'time, column 1 = space (found %s)' % sorted(cols),
+        'pair is credited (at glob_2_loc[neighbour]) iff own global index < '
+        'neighbour global index -- the complement of the producers\' skip, '
+        'on the same key; column 0 = time, 1 = space (found %s%s)' %
+        (sorted(seen), '; ' + '; '.join(bad) if bad else ''),
         construct='estimate_sobolev: symmetric accumulation')
     report.floor('R-accumulate', 3)
 
